@@ -25,7 +25,7 @@ RULE = ("every selector-syntax path of generated objects of every type that can 
         "distinct = distinct (version, type, selector shape, value class, entry point)")
 ASSUMPTIONS = [
     "only selectors whose every segment fits the selector syntax are generated (others are outside the statement)",
-    "properties present only as omitted defaults (e.g. revoked=false not written) are judged neither way",
+    "a selector for a property held only as an omitted default (e.g. revoked=false not written) may be accepted or refused; if accepted, the written JSON must contain the property",
     "a marking function 'accepts' a selector when it does not raise InvalidSelectorError (other documented refusals such as MarkingNotFoundError come after selector validation)",
 ]
 MARK = M.TLP["green"]
@@ -209,6 +209,60 @@ def wl_objects(ctx, rng, i):
                 ctx.violation("selector-addresses-nothing-accepted:" + kind,
                               "%s accepted selector %r which addresses nothing in a %s %s" % (name, s, ver, t),
                               {"version": ver, "entry_point": name, "selector": s, "near_miss": kind, "object": ji, "raised_instead": other})
+    # a property held only as a default the serialisation leaves out: if its selector is accepted, what is written must still contain
+    # something for the selector to address
+    for name in [n for n in ji if n not in jd and pathor.fits_syntax((n,))][:3]:
+        withgm = dict(o)
+        withgm["granular_markings"] = [{"marking_ref": MARK, "selectors": [name]}]
+        for ep, fn in (("parse", lambda: stix2.parse(json.dumps(withgm), allow_custom=True)), ("constructor", lambda: cls(allow_custom=True, **dict(withgm))),
+                       ("add_markings", lambda: obj.add_markings(MARK, name) if "modified" in jd and not jd.get("revoked") else None)):
+            try:
+                with warnings.catch_warnings():
+                    warnings.simplefilter("ignore")
+                    marked = fn()
+                if marked is None:
+                    continue
+                out = json.loads(marked.serialize())
+                again = json.loads(stix2.parse(marked.serialize(), allow_custom=True).serialize())
+            except Exception:
+                ctx.count("omitted_default_selector_refused")
+                continue
+            ctx.ev()
+            ctx.count("omitted_default_selector_accepted")
+            ctx.nontrivial(ver, t, "omitted-default", name, ep)
+            for lab, j in (("output", out), ("output after a round trip", again)):
+                if not pathor.resolve(j, (name,))[0]:
+                    ctx.violation("selector-addresses-nothing-in-output:omitted-default", "%s accepted selector %r on a %s %s, but the %s has no such property" % (ep, name, ver, t, lab),
+                                  {"version": ver, "entry_point": ep, "selector": name, "output": j})
+                    break
+    # a (custom) property given as a tuple is written as a list: its elements are addressed like list elements
+    if rnd % 2 == 1 and "modified" in jd and not jd.get("revoked"):
+        kw = dict(o)
+        kw["x_tuple"] = ("p", "q", ("r", {"k": 1}), ({"n": 0},))
+        for sel in ("x_tuple", "x_tuple.[0]", "x_tuple.[2].[1].k", "x_tuple.[3].[0].n"):
+            kw["granular_markings"] = [{"marking_ref": MARK, "selectors": [sel]}]
+            res, other = outcome(lambda: cls(allow_custom=True, **dict(kw)), True)
+            ctx.ev()
+            ctx.count("tuple_decisions")
+            ctx.nontrivial(ver, t, "tuple", sel, "constructor")
+            if res != "accepted":
+                ctx.violation("selector-tuple-element", "constructor refused selector %r which addresses an element of a tuple-valued property (%s %s)" % (sel, ver, t),
+                              {"version": ver, "selector": sel, "value": repr(kw["x_tuple"]), "raised": other})
+                break
+        try:
+            with warnings.catch_warnings():
+                warnings.simplefilter("ignore")
+                tobj = cls(allow_custom=True, **{k: v for k, v in kw.items() if k != "granular_markings"})
+            for name, fn in entry_points(tobj, dict(tobj), o, "x_tuple.[2].[1].k", cls)[2:11]:
+                res, other = outcome(fn)
+                ctx.ev()
+                ctx.count("tuple_decisions")
+                if res != "accepted":
+                    ctx.violation("selector-tuple-element", "%s refused selector 'x_tuple.[2].[1].k' which addresses an element of a tuple-valued property (%s %s)" % (name, ver, t),
+                                  {"version": ver, "entry_point": name, "value": repr(kw["x_tuple"])})
+                    break
+        except Exception:
+            pass
     # what a selector addresses is taken away by a new version: the new version is refused, not built with a selector that
     # addresses nothing
     if "modified" in jd and not jd.get("revoked"):
